@@ -20,27 +20,36 @@ def fetchPlaced (E : Externals) (d : DiskKind) (p : Placement) (read : Bool) : F
 /-- `fetch (store v) = v` under `Disk` (pickle), any threshold, any value -/
 theorem fetch_store (E : Externals) (hE : Lawful E) (mfs : Nat) (v : PyVal) (p : Placement)
     (h : place E .pickle mfs v false = .ok p) : fetchPlaced E .pickle p false = .val v := by
-  sorry
+  have hl := hE.loads_dumpsV
+  cases v <;> simp only [place, Disk.place] at h <;> (repeat' split at h) <;> cases h <;>
+    simp_all [fetchPlaced, fetch, Disk.fetch, MODE_RAW, MODE_BINARY, MODE_TEXT, MODE_PICKLE, column, Content.bytes]
 
 /-- `fetch (store v) = v` under `JSONDisk` for JSON-representable values (those the
 json+zlib codec round-trips: `Lawful.unjsonz_jsonz`) -/
 theorem fetch_store_json (E : Externals) (hE : Lawful E) (mfs : Nat) (v : PyVal) (p : Placement)
     (h : place E .json mfs v false = .ok p) : fetchPlaced E .json p false = .val v := by
-  sorry
+  have hl := hE.unjsonz_jsonz
+  simp only [place, Disk.place] at h
+  (repeat' split at h) <;> cases h <;>
+    simp_all [fetchPlaced, fetch, Disk.fetch, MODE_RAW, MODE_BINARY, column, Content.bytes]
 
 /-- a binary stream stored with read=True comes back byte for byte: as a handle with
 read=True (both disks), as bytes otherwise (pickle disk) -/
 theorem fetch_store_stream (E : Externals) (d : DiskKind) (mfs : Nat) (b : Bytes) (p : Placement)
     (h : place E d mfs (.bytes b) true = .ok p) :
     fetchPlaced E d p true = .handle b ∧ fetchPlaced E .pickle p false = .val (.bytes b) := by
-  sorry
+  cases d <;> simp [place, Disk.place] at h <;> subst h <;>
+    simp [fetchPlaced, fetch, Disk.fetch, MODE_RAW, MODE_BINARY, Content.bytes]
 
 /-- the only values `store` rejects are strings that must go to a text file but contain a
 code point UTF-8 cannot encode (a lone surrogate) -/
 theorem place_error_iff (E : Externals) (mfs : Nat) (v : PyVal) :
     (∃ e, place E .pickle mfs v false = .error e) ↔
       (∃ s, v = .str s ∧ mfs ≤ s.length ∧ (utf8enc s).isSome = false) := by
-  sorry
+  cases v <;> simp only [place, Disk.place] <;> (repeat' split) <;> simp_all
+  · intro h1; omega
+  · rename_i h; intro h2; rw [h2] at h; cases h
+  · exact ⟨.unicode, trivial⟩
 
 namespace Cache
 
@@ -50,7 +59,7 @@ theorem set_rejects (s : Cache) (E : Externals) (now : Int) (k v : PyVal) (ttl :
     (read : Bool) (tag : SqlVal) (e : StoreErr)
     (h : place E s.cfg.disk s.cfg.minFileSize v read = .error e) :
     s.set E now k v ttl read tag = (s, .exc "UnicodeEncodeError") := by
-  sorry
+  simp [set, store, h]
 
 /-- every accessor decodes a row with the same `fetch`: what `get` returns for a key is
 `fetch` of the live row of that key (lock-free path) -/
@@ -61,7 +70,11 @@ theorem get_is_fetch (s : Cache) (E : Externals) (now : Int) (k : PyVal) (r : Ro
       (match (s.fetchRow E r false).2 with
        | .ioerror => .default
        | f => fetchedOut f) := by
-  sorry
+  unfold get
+  simp only [hfast.1, hfast.2, hr]
+  rw [if_pos (by rfl)]
+  rw [fetchRow_snd_congr (s.logSql "selLive") s E r false rfl rfl]
+  cases (s.fetchRow E r false).2 <;> simp [withFlags, defaultFlags]
 
 /-- the row `set` writes carries exactly the placement `store` chose (value cell or the
 fresh file with the value's bytes), so together with `fetch_store` every later look-up that
@@ -72,7 +85,83 @@ theorem get_after_set (s : Cache) (E : Externals) (hE : Lawful E) (now now' : In
     (hfound : ((s.set E now k v ttl false tag).1.selLive (DC.put E s.cfg.disk k).1 (DC.put E s.cfg.disk k).2 now').isSome)
     (hok : (s.set E now k v ttl false tag).2 = .bool true) :
     ((s.set E now k v ttl false tag).1.get E now' k false false false).2 = .val v := by
-  sorry
+  have hP := hg.pi
+  have hPS := set_PI s E now k v ttl false tag hP
+  have hS := set_eq s E now k v ttl false tag
+  generalize s.set E now k v ttl false tag = S at *
+  cases hst : s.store E v false with
+  | error e =>
+    rw [hst] at hS; simp only at hS; subst hS; cases hok
+  | ok p =>
+    obtain ⟨s1, c⟩ := p
+    rw [hst] at hS; simp only at hS
+    obtain ⟨hP1, hfile⟩ := store_PI hst hP
+    obtain ⟨hrows1, hcfg1, -, -, hstat1⟩ := store_keep hst
+    have hd1 := hP1.depth
+    simp only [core_depth] at hd1
+    subst hS
+    rw [transact_snd _ _ _ hd1] at hok
+    obtain ⟨hbok, R, hcR, hR⟩ := setBody_true _ _ _ _ _ hok
+    have hc := transact_ok_core s1 _ c.file hd1 hbok
+    rw [hcR] at hc
+    simp only [core_log, core_files] at hc
+    generalize (s1.transact (setBody (DC.put E s.cfg.disk k).1 (DC.put E s.cfg.disk k).2 now
+      { c with expT := ttl.map (now + ·), tag := tag }) c.file).1 = S1 at *
+    have hrows : S1.rows = R := congrArg Core.rows hc
+    have hcfg : S1.cfg = s.cfg := (congrArg Core.cfg hc).trans hcfg1
+    have hstat : S1.statistics = s.statistics := (congrArg Core.statistics hc).trans hstat1
+    have hfiles := congrArg Core.files hc
+    simp only [core_files] at hfiles
+    -- the row found
+    obtain ⟨r, hr⟩ := Option.isSome_iff_exists.1 hfound
+    have hrm : r ∈ S1.rows := selLive_mem hr
+    have hrk : keyMatch (DC.put E s.cfg.disk k).1 (DC.put E s.cfg.disk k).2 r = true := by
+      have := List.find?_some hr
+      simp only [Bool.and_eq_true] at this
+      exact this.1
+    have hrS : r ∈ setRows (DC.put E s.cfg.disk k).1 (DC.put E s.cfg.disk k).2 now
+        { c with expT := ttl.map (now + ·), tag := tag } (s1.log .begin) := hR r (hrows ▸ hrm)
+    have hu : KeysUnique (s1.log .begin).rows := by
+      show KeysUnique s1.rows
+      rw [hrows1]; exact hg.tinv.tbl.uniq
+    obtain ⟨hmode, hfile', hval⟩ := setRows_match hu hrS hrk
+    simp only at hmode hfile' hval
+    -- `get` is `fetch` of that row
+    have hgf := get_is_fetch S1 E now' k r (by rw [hstat, hcfg]; exact hfast) (by rw [hcfg]; exact hr)
+    rw [hgf]
+    suffices hfr : (S1.fetchRow E r false).2 = .val v by rw [hfr]; rfl
+    unfold store at hst
+    rw [hd] at hst
+    split at hst
+    · cases hst
+    · rename_i mode sv hpl
+      cases hst
+      simp only at hmode hfile' hval
+      have := fetch_store E hE _ v _ hpl
+      unfold fetchRow
+      rw [hfile']
+      simp only [hcfg, hd, hmode, hval]
+      exact this
+    · rename_i mode ct hpl
+      cases hst
+      simp only at hmode hfile' hval
+      have := fetch_store E hE _ v _ hpl
+      have hget : S1.fileGet s.nfile = some ct := by
+        obtain ⟨-, ct', h1, -⟩ := hPS.ref r hrm s.nfile hfile'
+        simp only [core_files] at h1
+        have h2 : (s.nfile, ct') ∈ (s.fwrite ct).1.files := by
+          rw [hfiles] at h1; exact (List.mem_filter.1 h1).1
+        have h3 : (s.nfile, ct) ∈ (s.fwrite ct).1.files := by simp [fwrite]
+        have hn1 : ((s.fwrite ct).1.files.map (·.1)).Nodup := hP1.nodup
+        have e1 := fileGet_of_mem hn1 h2
+        have e2 := fileGet_of_mem hn1 h3
+        rw [e1] at e2
+        cases e2
+        exact fileGet_of_mem hPS.nodup h1
+      unfold fetchRow
+      rw [hfile']
+      simp only [hmode, hval]
+      split <;> (simp only [log_cfg, log_fileGet, hcfg, hd, hget]; exact this)
 
 end Cache
 
